@@ -2,9 +2,13 @@ package main
 
 func init() {
 	register(&propDef{ID: "C14", Title: "Host-port mappings are set up, held and removed completely",
-		Explanation: "Decides: (R1) a failed openLocalPort closes every socket opened so far in a loop, records nothing and fails; in the request handler a failed port-mapping setup is cleaned up, mappings are set up only after a successful ADD and removed only after a successful DEL; (R2) setup, cleanup and full sync compute the chain name with hostportChainName(port, port.PodName); (R3) every `-X` line names a hostportChainName result or is behind HasPrefix(chain, KUBE-HP-) and the not-active test; (R4) podPortMap is accessed only under the handler mutex, and CloseHostports closes the sockets and deletes the entry inside the critical section of its lookup; (R5) the full sync writes a chain line (flush), the jump rule and the chain rules for every given port on every path, and restores without flushing the table. (R6) the failure clean-up closes only sockets this call opened, the port file is removed only after a successful clean; (R7) the port file is saved before any iptables rule is written, and setup, full sync and clean rewrite the same set of k8s.Port fields before deriving the rule text (the remover re-derives the exact rule). (R8) cleanupPortMapping closes the pod's sockets on every path, and the restart sync (setupIPtables) skips a pod only on conditions over Status.PodIP, Spec.HostNetwork, the annotations or a decode error. Does not decide inverse/convergence laws over arbitrary NAT tables nor port distinctness (kernel behaviour). (R9) no success return of SetupPortMappingForAllPods is reachable without RestoreAll (empty port set included). (R10) the annotation update reports success only after Pods().Update or through `annotation == new data`. (R11) package portmapping opens sockets with plain net.Listen* calls only: no ListenConfig, no setsockopt. (R12) every OpenHostports / CloseHostports call of the daemon passes k8s.GetPodFullName(..). (R13) an edge that leaves the per-port loop of OpenHostports other than to the code after it passes the closing of what was opened (a closing loop or helper) before any return. (R14 = C08.R14 for portmapping / galaxy / gc / policy) no escaping closure over a per-iteration variable.",
+		Explanation: "Decides: (R1) a failed openLocalPort closes every socket opened so far in a loop, records nothing and fails; in the request handler a failed port-mapping setup is cleaned up, mappings are set up only after a successful ADD and removed only after a successful DEL; (R2) setup, cleanup and full sync compute the chain name with hostportChainName(port, port.PodName); (R3) every `-X` line names a hostportChainName result or is behind HasPrefix(chain, KUBE-HP-) and the not-active test; (R4) podPortMap is accessed only under the handler mutex, and CloseHostports closes the sockets and deletes the entry inside the critical section of its lookup; (R5) the full sync writes a chain line (flush), the jump rule and the chain rules for every given port on every path, and restores without flushing the table. (R6) the failure clean-up closes only sockets this call opened, the port file is removed only after a successful clean; (R7) the port file is saved before any iptables rule is written, and setup, full sync and clean rewrite the same set of k8s.Port fields before deriving the rule text (the remover re-derives the exact rule). (R8) cleanupPortMapping closes the pod's sockets on every path, and the restart sync (setupIPtables) skips a pod only on conditions over Status.PodIP, Spec.HostNetwork, the annotations or a decode error. Does not decide inverse/convergence laws over arbitrary NAT tables nor port distinctness (kernel behaviour). (R9) no success return of SetupPortMappingForAllPods is reachable without RestoreAll (empty port set included). (R10) the annotation update reports success only after Pods().Update or through `annotation == new data`. (R11) package portmapping opens sockets with plain net.Listen* calls only: no ListenConfig, no setsockopt. (R12) every OpenHostports / CloseHostports call of the daemon passes k8s.GetPodFullName(..). (R13) an edge that leaves the per-port loop of OpenHostports other than to the code after it passes the closing of what was opened (a closing loop or helper) before any return. (R14 = C08.R14 for portmapping / galaxy / gc / policy) no escaping closure over a per-iteration variable. (R15) in withRetry (and its poll closure) every return reachable from the err != nil edge of the attempt carries an error or is (false, nil). (R16) every MakeChainLine of SetupPortMapping / CleanPortMapping is built from hostportChainName (or is KUBE-MARK-MASQ).",
 		Assumptions: []string{"CFG paths; iptables lines are identified by their constant words and the provenance of the chain operand"},
 		Run: func(c *Ctx) {
+			c.Rule("C14.R15", "a failed attempt never ends the retry as success", 1)
+			ruleRetryKeepsError(c, "C14.R15")
+			c.Rule("C14.R16", "a per-pod --noflush restore declares only the pod's own chains", 2)
+			rulePerPodRestoreDeclaresOwnChainsOnly(c, "C14.R16")
 			c.Rule("C14.R1", "open/close pairing, chain naming, -X ownership, full sync completeness", 5)
 			ruleHostPorts(c, "C14.R1")
 			c.Rule("C14.R6", "failure clean-up closes only own sockets; port file removed only after a successful clean", 1)
